@@ -322,6 +322,16 @@ def lor(*xs):
     return mk('or', tuple(xs))
 
 
+def icmp(rel, a, b):
+    """comparison of INTEGER quantities: total order, no NaN, so `a >= b` is exactly `not (a < b)`.  Canonical spelling: only the
+    strict form and its negation, so that `if i < d { A } else { B }` and `if i >= d { B } else { A }` have one normal form."""
+    if rel == 'ge':
+        return lnot(cmp('lt', a, b))
+    if rel == 'le':
+        return lnot(cmp('gt', a, b))
+    return cmp(rel, a, b)
+
+
 def ite(c, a, b):
     if c == TRUE:
         return a
